@@ -77,6 +77,14 @@ DIRECTED = {
     "kf_m_partial_call_fails_simple": S(
         {"cls": "SimpleTaskPool", "size": 2, "simple": {"partial": True, "bad": [1]}},
         op(o="spawn", num=3), IDLE, DRAIN, op(o="hstart", kind="gac"), DRAIN),
+    # a long history: ids and group indices grow past 9 and 99, with flushes and cancellations in between (C10/C11/C13)
+    "long_history": S(
+        {"cls": "SimpleTaskPool", "size": 4, "simple": {"imm": True, "ecb": "sync", "method": True}},
+        *([op(o="spawn", num=3), IDLE] * 5 + [op(o="hstart", kind="flush"), IDLE] + [op(o="spawn", num=3), IDLE] * 8
+          + [op(o="get_ids", names=["start-group-0", "start-group-9", "start-group-12"]), op(o="cancel", ids=[9]), op(o="cancel", ids=[10, 3]),
+             op(o="hstart", kind="flush"), IDLE] + [op(o="spawn", num=3), IDLE] * 22
+          + [op(o="cancel", ids=[99]), op(o="cancel", ids=[104]), op(o="cancel", ids=[200]),
+             op(o="get_ids", names=["start-group-34", "start-group-3"]), op(o="hstart", kind="gac"), DRAIN])),
     # stop() on a SimpleTaskPool whose running ids have gaps, negative and oversized arguments (C14)
     "stop_with_gaps": S(
         {"cls": "SimpleTaskPool", "size": -1, "simple": {"ccb": "async"}},
